@@ -125,3 +125,45 @@ def mutants(only=None, tier="quick", check_tests=True):
     print("mutants: %d, not caught: %d" % (len(results), missed))
     # replays written while checking mutants describe the scratch copy, not /repo
     return 0 if missed == 0 else 1
+
+
+# ---------------------------------------------------------------------------
+# soundness: property-preserving refactors must not raise an alarm
+# ---------------------------------------------------------------------------
+
+def benign(only=None, tier="quick"):
+    repo = proc.REPO_DIR
+    base = os.path.join(HERE, "benign")
+    alarms = 0
+    n = 0
+    for name in sorted(os.listdir(base)) if os.path.isdir(base) else []:
+        path = os.path.join(base, name)
+        if not os.path.isfile(os.path.join(path, "patch.diff")) or (only and only not in name):
+            continue
+        meta = json.load(open(os.path.join(path, "meta.json")))
+        scratch = tempfile.mkdtemp(prefix="cr-benign-", dir="/dev/shm" if os.path.isdir("/dev/shm") else None)
+        try:
+            dst = os.path.join(scratch, "repo")
+            shutil.copytree(repo, dst, ignore=shutil.ignore_patterns(".git", "__pycache__", ".pytest_cache", ".benchmarks"))
+            ap = subprocess.run(["patch", "-p1", "-s", "-d", dst, "-i", os.path.join(path, "patch.diff")], capture_output=True, text=True)
+            if ap.returncode != 0:
+                print("%-52s PATCH-FAILED %s" % (name, (ap.stdout + ap.stderr)[:200]))
+                alarms += 1
+                continue
+            tp = subprocess.run([sys.executable, "-m", "pytest", "-q", "-x", "-p", "no:cacheprovider"], cwd=dst,
+                                capture_output=True, text=True, timeout=900, env=dict(os.environ, PYTHONDONTWRITEBYTECODE="1"))
+            res = []
+            for pid in meta["properties"]:
+                n += 1
+                cp = subprocess.run([sys.executable, SIMCHECK, "check", pid, "--tier", tier, "--no-evidence"],
+                                    capture_output=True, text=True, env=dict(os.environ, VERIF_REPO_DIR=dst), timeout=3000)
+                bad = cp.returncode != 0 or "VIOLATION" in cp.stdout
+                if bad:
+                    alarms += 1
+                res.append("%s:%s" % (pid, "ALARM rc=%d %s" % (cp.returncode, " | ".join(
+                    l.strip() for l in cp.stdout.splitlines() if l.startswith("  what") or l.startswith("HARNESS"))[:400]) if bad else "silent"))
+            print("%-52s tests=%s  %s" % (name, "pass" if tp.returncode == 0 else "FAIL", "  ".join(res)))
+        finally:
+            shutil.rmtree(scratch, ignore_errors=True)
+    print("benign refactors: %d property runs, alarms: %d" % (n, alarms))
+    return 0 if alarms == 0 else 1
